@@ -581,6 +581,10 @@ class Kernel(Module):
         # Process the index
         index = index if isinstance(index, tuple) else (index,)
 
+        if len(self._batch_shape):
+            # the kernel's own batch shape is indexed as well (also when it owns no batched parameter or buffer)
+            new_kernel.batch_shape = torch.empty(*self._batch_shape, 0).__getitem__(index).shape[:-1]
+
         for param_name, param in self.named_parameters(recurse=False):
             new_param = new_kernel.__getattr__(param_name)
             new_param.data = new_param.__getitem__(index)
